@@ -13,6 +13,7 @@ pub fn load(spec: &str) -> Option<Vec<(String, String)>> {
         let size: u32 = it.next()?.parse().ok()?;
         return Some(vec![("main.rssl".into(), crate::pgen::generate_pure(seed, size))]);
     }
+    if let Some(s) = spec.strip_prefix("shadow:") { return Some(vec![("main.rssl".into(), crate::c15::shadow_program(s.parse().ok()?))]); }
     if let Some(s) = spec.strip_prefix("skel:") { return Some(vec![("main.rssl".into(), crate::c08::skeleton(s.parse().ok()?))]); }
     let repo = std::env::var("RSSL_REPO").unwrap_or("/repo".into());
     if let Some(rel) = spec.strip_prefix("file:") { return Some(vec![("main.rssl".into(), std::fs::read_to_string(format!("{}/{}", repo, rel)).ok()?)]); }
@@ -62,5 +63,6 @@ pub fn gen_cases(seed: u64, n: usize, _thorough: bool) -> Vec<String> {
     for name in crate::c14::program_names() { out.push(format!("E dx c14:{}", name)); }
     for k in 0..n { out.push(format!("E {} gen:{}:{}", if k % 4 == 3 { "vk" } else { "dx" }, rng.below(1 << 40), rng.range(3, 22))); }
     for _ in 0..n { out.push(format!("E dx skel:{}", rng.below(1 << 40))); }
+    for _ in 0..n / 4 { out.push(format!("E dx shadow:{}", rng.below(1 << 40))); }
     out
 }
